@@ -37,4 +37,15 @@ PROPS = {
         "trusted": ["mongo-driver/bson Marshal/Unmarshal (compared byte for byte with the model codec)", "index build on load is the parameter indexOk of reload_identity"],
         "assumptions": ["strings/keys are valid UTF-8; BSON types outside the 13 supported ones do not occur"],
     },
+    "C05": {
+        "props_modules": ["Lungo.Props.C05"],
+        "audit_files": ["Lungo/Audit/C05.lean"],
+        "tie_modules": ["Lungo.Ties.AtomicWrite"],
+        "streams": [("crash", 8)],
+        "thorough_mult": 8,
+        "trusted": ["POSIX-style crash model of Model/FS.lean stands for the kernel/file system/disk (stricter than ext4/xfs ordered mode; disks that lie about fsync are out of scope)",
+                    "kill points validated on the real kernel via strace fault injection; power-loss images only through the model",
+                    "Model/CommitStore.lean (store-then-publish of Engine.Commit) is hand-written"],
+        "assumptions": ["strace/ptrace available (else the stream degrades to images + store faults and says so)"],
+    },
 }
